@@ -150,6 +150,10 @@ func (s *sim) nextByz(rng *simcore.RNG, roll int) simcore.Op {
 		}
 		return op
 	}
+	if ids := s.knownBlockIDs(rs.Height); len(ids) > 0 && rng.Bool(0.08) {
+		// claim a +2/3 majority for some block: makes the node track conflicting votes for it
+		return simcore.Op{"a": "byz", "k": "maj23", "b": b, "to": via.idx, "h": rs.Height, "r": int(rs.Round) - rng.Intn(2), "t": 1 + rng.Intn(2), "blk": ids[rng.Intn(len(ids))]}
+	}
 	// otherwise a vote
 	op := simcore.Op{"a": "byz", "k": "vote", "b": b, "h": rs.Height, "r": int(rs.Round) + rng.Intn(3) - 1, "t": 1 + rng.Intn(2)}
 	if op.Int("r") < 0 {
@@ -312,6 +316,26 @@ func (s *sim) applyByz(op simcore.Op) bool {
 		if p.targets != nil {
 			s.env.Count("fault.byz_split_proposal")
 		}
+		return true
+	case "maj23":
+		bid, ok := parseBid(op.Str("blk"))
+		to := op.Int("to")
+		if !ok || to < 0 || to >= len(s.nodes) || !s.nodes[to].isAlive() || op.Int("r") < 0 {
+			return false
+		}
+		n := s.nodes[to]
+		rs := n.cs.GetRoundState()
+		if rs.Height != op.Int64("h") {
+			return false
+		}
+		typ := tmproto.PrevoteType
+		if op.Int("t") == 2 {
+			typ = tmproto.PrecommitType
+		}
+		if err := rs.Votes.SetPeerMaj23(int32(op.Int("r")), typ, peerID(b.idx), bid); err != nil {
+			s.env.Count("probe.maj23_claim_rejected")
+		}
+		s.env.Count("fault.byz_maj23_claim")
 		return true
 	case "vote":
 		bid, ok := parseBid(op.Str("blk"))
